@@ -738,6 +738,15 @@ func (v Value) getIndex(vm *VM, idx int) Value {
 	if t, ok := v.value.(*structT); ok {
 		return t.GetIndex(idx)
 	}
+	if v.value == nil && v.t.base() == TypeStruct {
+		// a method can be called on a nil struct reference: it is found
+		// through the declared type and gets the nil as its receiver
+		if proto, ok := vm.globals.Read(int(v.t.value())).value.(*structT); ok {
+			if raw, ok := proto.Methods.Get(idx); ok {
+				return newMethod(v, raw.getFunc())
+			}
+		}
+	}
 	return v.value.GetAttr(vm.globals.Key(idx))
 }
 
